@@ -36,7 +36,9 @@ ASSUMPTIONS = [
 @st.composite
 def case_strategy(draw):
     mode = draw(st.sampled_from(["auto", "cross", "cross"]))
-    cfg, theta_max = draw(gen.config_case())
+    # up to 5 scales: with >= 4 scales (>= 8 distinct limits) the library leaves its cumulative
+    # counting path also without separation weighting
+    cfg, theta_max = draw(gen.config_case(max_scales=draw(st.sampled_from([3, 3, 5]))))
     edges = gen.binning_edges_reference(cfg, cfg["cosmology"])
     many = draw(st.integers(0, 9)) == 0  # occasionally 10-12 patches (two-digit patch ids), few objects each
     size = dict(min_patches=10, max_patches=12, max_per_patch=2) if many else {}
@@ -196,6 +198,8 @@ def compare(case, cfg, cfs, ck: Checker):
     ck.cls(f"mode:{case['mode']}", f"unit:{c['unit']}", f"method:{c['method']}", f"closed:{closed}", f"patches:{npatch if npatch < 10 else '>=10'}", f"scales:{ns}")
     if c["rweight"] is not None:
         ck.cls("rweight", "res<8" if c["resolution"] + 1 + 2 * ns < 8 else "res>=8")
+    elif len(set(c["rmin"]) | set(c["rmax"])) >= 8:
+        ck.cls("non-cumulative-without-rweight")
     if edges[0] < 0.05:
         ck.cls("zmin<0.05")
     if edges[0] > 1.6:
